@@ -8,4 +8,5 @@ RUSTFLAGS="--cfg orx_concurrent_iter_verif" cargo build --release --manifest-pat
 cargo build --release --manifest-path "$H/Cargo.toml" --target-dir "$H/target" 2>&1 | tail -2
 cargo build --profile twin-dbg --manifest-path "$H/Cargo.toml" --target-dir "$H/target" 2>&1 | tail -1
 cargo build --profile twin-rel --manifest-path "$H/Cargo.toml" --target-dir "$H/target" 2>&1 | tail -1
+(cd "$H" && RUSTFLAGS="-Zsanitizer=thread" cargo +nightly build -Zbuild-std --target x86_64-unknown-linux-gnu --release --target-dir "$H/target-tsan" 2>&1 | tail -1) || echo "note: ThreadSanitizer build failed; C07's real-thread stage will be skipped"
 echo "setup done"
